@@ -32,7 +32,17 @@ def build(targets, timeout=1500):
     with open(LOCK, "w") as lk:
         fcntl.flock(lk, fcntl.LOCK_EX)
         t0 = time.time()
-        if not os.path.exists(os.path.join(COQ, "Makefile")):
+        # regenerate _CoqProject / Makefile when a .v file was added or removed (e.g. after a merge)
+        have = set()
+        cp = os.path.join(COQ, "_CoqProject")
+        if os.path.exists(cp):
+            have = {l.strip() for l in open(cp) if l.strip().endswith(".v")}
+        want = set()
+        for root, _, files in os.walk(os.path.join(COQ, "theories")):
+            for f in files:
+                if f.endswith(".v"):
+                    want.add(os.path.relpath(os.path.join(root, f), COQ))
+        if have != want or not os.path.exists(os.path.join(COQ, "Makefile")):
             rc, out = _sh(os.path.join(VERIF, "bin", "gen-coqproject"), COQ, 120)
             logs.append(out)
             if rc != 0:
